@@ -177,6 +177,7 @@ def _nice_model(ctx, extra=None):
 
 
 def run_one(h, prefix, opts):
+    load.unbind()     # drops stubs a previous path may have installed
     load.bind()
     key = (h.module, h.tier, h.name)
     twins = _TWINS.setdefault(key, None)
@@ -389,8 +390,9 @@ class Summary(object):
             self.unsupported[rec["msg"]] = self.unsupported.get(rec["msg"], 0) + 1
         for (label, status, t, twin) in rec["obligations"]:
             self.obligations += 1
-            d = self.labels.setdefault(label, {"unsat": 0, "sat": 0, "unknown": 0})
+            d = self.labels.setdefault(label, {"unsat": 0, "sat": 0, "unknown": 0, "solver_s": 0.0})
             d[status] += 1
+            d["solver_s"] = round(d["solver_s"] + t, 3)
             if status == "unsat":
                 self.discharged += 1
             elif status == "unknown":
